@@ -30,6 +30,55 @@ func targetFor(valueType string) (func() interface{}, bool) {
 	return nil, false
 }
 
+// humanHistory is the `human` part of a C16 replay file (what Human writes).
+type humanHistory struct {
+	ProviderKind string      `json:"provider_kind"`
+	ProviderCap  int         `json:"provider_capacity"`
+	Default      string      `json:"default_request_content_type"`
+	Registry     [][2]string `json:"registry"`
+	Reads        []struct {
+		CT        string `json:"content_type"`
+		CE        string `json:"content_encoding"`
+		BodyHex   string `json:"body_hex"`
+		Written   string `json:"written_hex"`
+		ValueType string `json:"value_type"`
+		Value     string `json:"value_written"`
+		Kind      string `json:"kind"`
+		Faithful  bool   `json:"faithful"`
+	} `json:"reads"`
+}
+
+// history rebuilds the recorded history (registers the extra keys when the record used them).
+func (hu humanHistory) history(path string) (History, error) {
+	if len(hu.Reads) == 0 || hu.Reads[0].ValueType == "" {
+		return History{}, fmt.Errorf("%s carries no replayable reads (human.reads[].body_hex, value_type …)", path)
+	}
+	h := History{Cfg: Cfg{Provider: hu.ProviderKind, Cap: hu.ProviderCap, Default: hu.Default, Registry: hu.Registry}}
+	if len(h.Cfg.Registry) > len(BuiltinRegistry()) {
+		RegisterExtras()
+	}
+	for i, r := range hu.Reads {
+		nt, deep := targetFor(r.ValueType)
+		if nt == nil {
+			return h, fmt.Errorf("read %d: unknown value type %q", i, r.ValueType)
+		}
+		body, err := hex.DecodeString(r.BodyHex)
+		if err != nil {
+			return h, err
+		}
+		written, _ := hex.DecodeString(r.Written)
+		t := nt()
+		d := json.NewDecoder(bytes.NewReader([]byte(r.Value)))
+		d.UseNumber()
+		if err := d.Decode(t); err != nil {
+			return h, fmt.Errorf("read %d: value_written does not parse: %v", i, err)
+		}
+		h.Reads = append(h.Reads, Read{Kind: r.Kind, Val: Value{Type: r.ValueType, V: Deref(t), NewTarget: nt, Deep: deep}, CT: r.CT, CE: r.CE,
+			Body: body, Written: written, Faithful: r.Faithful, Status: "replayed"})
+	}
+	return h, nil
+}
+
 // ReplayFile re-runs the history recorded in the `human` part of a C16 replay file on the real
 // code (in order, on one provider) and on the driver, and prints both sides.
 func ReplayFile(path string) error {
@@ -39,54 +88,16 @@ func ReplayFile(path string) error {
 	}
 	var f struct {
 		Violation struct {
-			What  string `json:"what"`
-			Human struct {
-				ProviderKind string      `json:"provider_kind"`
-				ProviderCap  int         `json:"provider_capacity"`
-				Default      string      `json:"default_request_content_type"`
-				Registry     [][2]string `json:"registry"`
-				Reads        []struct {
-					CT        string `json:"content_type"`
-					CE        string `json:"content_encoding"`
-					BodyHex   string `json:"body_hex"`
-					Written   string `json:"written_hex"`
-					ValueType string `json:"value_type"`
-					Value     string `json:"value_written"`
-					Kind      string `json:"kind"`
-					Faithful  bool   `json:"faithful"`
-				} `json:"reads"`
-			} `json:"human"`
+			What  string       `json:"what"`
+			Human humanHistory `json:"human"`
 		} `json:"violation"`
 	}
 	if err := json.Unmarshal(b, &f); err != nil {
 		return err
 	}
-	hu := f.Violation.Human
-	if len(hu.Reads) == 0 || hu.Reads[0].ValueType == "" {
-		return fmt.Errorf("%s carries no replayable reads (human.reads[].body_hex, value_type …)", path)
-	}
-	h := History{Cfg: Cfg{Provider: hu.ProviderKind, Cap: hu.ProviderCap, Default: hu.Default, Registry: hu.Registry}}
-	if len(h.Cfg.Registry) > len(BuiltinRegistry()) {
-		RegisterExtras()
-	}
-	for i, r := range hu.Reads {
-		nt, deep := targetFor(r.ValueType)
-		if nt == nil {
-			return fmt.Errorf("read %d: unknown value type %q", i, r.ValueType)
-		}
-		body, err := hex.DecodeString(r.BodyHex)
-		if err != nil {
-			return err
-		}
-		written, _ := hex.DecodeString(r.Written)
-		t := nt()
-		d := json.NewDecoder(bytes.NewReader([]byte(r.Value)))
-		d.UseNumber()
-		if err := d.Decode(t); err != nil {
-			return fmt.Errorf("read %d: value_written does not parse: %v", i, err)
-		}
-		h.Reads = append(h.Reads, Read{Kind: r.Kind, Val: Value{Type: r.ValueType, V: Deref(t), NewTarget: nt, Deep: deep}, CT: r.CT, CE: r.CE,
-			Body: body, Written: written, Faithful: r.Faithful, Status: "replayed"})
+	h, err := f.Violation.Human.history(path)
+	if err != nil {
+		return err
 	}
 	c, err := RunOne(h)
 	if err != nil {
@@ -98,7 +109,7 @@ func ReplayFile(path string) error {
 	}
 	fmt.Println("what:", f.Violation.What)
 	for i, r := range c.Reads {
-		fmt.Printf("read %d: Content-Type=%q Content-Encoding=%q body=%d bytes\n  real : %s %s ledger=%q (alone on a fresh provider: %s)\n  model: %s path=%s\n  Spec.C16.readHolds=%v clauses[no-panic,round-trip,broken-coding,broken-syntax,history,ledger]=%s class F61=%v F62=%v\n",
+		fmt.Printf("read %d: Content-Type=%q Content-Encoding=%q body=%d bytes\n  real : %s %s ledger=%q (alone on a fresh provider: %s)\n  model: %s path=%s\n  Spec.C16.readHolds=%v clauses[no-panic,round-trip,broken-coding,broken-syntax,history,ledger]=%s class of the repaired F61=%v class F62=%v\n",
 			i, r.Read.CT, r.Read.CE, len(r.Read.Body), r.Real.Key(), r.Real.Detail, r.Real.Events, r.Alone.Key(), r.ModelRaw, r.Tag, r.S, r.Clauses, r.F61, r.F62)
 	}
 	fmt.Printf("Spec.c16Holds=%v issues=%v\n", c.Spec, issues)
